@@ -35,6 +35,8 @@ type forgeJob struct {
 	Flips   []int64 `json:"flips"`   // byte positions to alter; [-1] = every byte
 	Struct  bool    `json:"struct"`  // structured forgeries
 	MaxFlip int     `json:"maxflip"` // sample size when Flips is empty
+	From    int64   `json:"from"`    // with Flips = [-1]: only byte positions in [From, To) (To = 0: to the end); a process
+	To      int64   `json:"to"`      // keeps one index database open per evaluated tape, so long sweeps are cut into chunks
 	Seed    int64   `json:"seed"`
 }
 
@@ -367,7 +369,7 @@ func cmdForge(args []string, w *bufio.Writer) {
 	flips := job.Flips
 	if len(flips) == 1 && flips[0] == -1 {
 		flips = nil
-		for p := int64(0); p < int64(len(tape)); p++ {
+		for p := job.From; p < int64(len(tape)) && (job.To == 0 || p < job.To); p++ {
 			flips = append(flips, p)
 		}
 	} else if len(flips) == 0 && job.MaxFlip > 0 {
